@@ -320,7 +320,7 @@ const OPS: &str = "Every input runs: ShapeReader::new / with_shx, header, iter_s
     iterator; workers are supervised child processes so an abort is observed too.";
 
 fn grid_cases(env: &Env) -> Box<dyn Iterator<Item = ByteCase>> {
-    let bases = base_models(env.seed, env.pickn(2, 8));
+    let bases = base_models(env.seed, env.pickn(4, 12));
     let mut bi = 0usize;
     let mut pending: Vec<ByteCase> = Vec::new();
     Box::new(std::iter::from_fn(move || loop {
@@ -342,7 +342,7 @@ fn grid_cases(env: &Env) -> Box<dyn Iterator<Item = ByteCase>> {
 }
 
 fn cut_cases(env: &Env) -> Box<dyn Iterator<Item = ByteCase>> {
-    let bases = base_models(env.seed ^ 0x5555, env.pickn(1, 4));
+    let bases = base_models(env.seed ^ 0x5555, env.pickn(2, 6));
     let mut bi = 0usize;
     let mut pending: Vec<ByteCase> = Vec::new();
     Box::new(std::iter::from_fn(move || loop {
@@ -469,7 +469,7 @@ impl RandomProp for Mutants {
         random_cases(false)
     }
     fn cases(env: &Env) -> u64 {
-        env.n(150_000, 12_000_000)
+        env.n(600_000, 30_000_000)
     }
 }
 
@@ -498,7 +498,7 @@ impl RandomProp for AllocMutants {
         random_cases(false)
     }
     fn cases(env: &Env) -> u64 {
-        env.n(60_000, 4_000_000)
+        env.n(200_000, 10_000_000)
     }
 }
 bytes_prop!(
@@ -514,7 +514,7 @@ impl RandomProp for Unbacked {
         random_cases(true)
     }
     fn cases(env: &Env) -> u64 {
-        env.n(60_000, 3_000_000)
+        env.n(200_000, 10_000_000)
     }
 }
 
